@@ -71,6 +71,132 @@ CLAIMED.update({
    note=COMMON_NOTE + 'PARTIAL: real thread join, socket close and finalisation of refused requests are runtime residue observed by the real-UDP tier.',
    design='§7 C09'),
 })
+
+FAT_NOTE = ('Trusted: Coq 8.16.1 kernel (vm_compute only on closed terms / generated skeleton checks), translators gen_fat.py / gen_fatskel.py / '
+            'gen_boot.py, ExtrOcamlBasic extraction + runner/driver.ml, harness/fatimg.py (independent image writer), CPython. '
+            'All property theorems closed under the global context. ')
+CLAIMED.update({
+ 'C02': dict(
+   technique='Coq proof over a model of BootHandler.resolve_path (hex serial, board table, address check) + differential correspondence + partition-content oracle',
+   text='Theorems for every request string, client address and board table: whatever is served comes from the image and partition configured for the '
+        'board whose serial the first component spells in hexadecimal, from the configured address when ip= is set (exactly that address served, every '
+        'other refused); unknown / non-hex serials and empty paths are not found. Tie: statement structure of resolve_path regenerated from server.py; '
+        'int(s,16) and the resolution model compared with the real handler; end-to-end oracle: thousands of adversarial names from IPv4 / IPv6 / mapped '
+        'addresses against disk images with two FAT partitions, reply content compared with the extracted Coq reader of the configured partition.',
+   note=FAT_NOTE + 'The walk inside the volume is covered by C03 (reader) and the end-to-end oracle; pathlib parsing of the request and ipaddress are CPython. '
+        'Found and fixed: str-vs-ipaddress comparison refused every ip= board.',
+   design='§7 C02'),
+ 'C03': dict(
+   technique='Coq proofs that the code\'s FAT-entry decoding, geometry and read arithmetic equal the bit-level / in-memory specification + three-way differential check',
+   text='Theorems: the FAT entry read by Fat12/16/32Table equals the bit-level entry for every table and index; geometry (offsets, sizes, cluster count, type '
+        'incl. the 4085/65525 boundaries) as computed by FatFileSystem.__init__ equals the specification reader; cluster n is bytes [data+(n-2)cs, +cs); ANY '
+        'sequence of seek/read/readinto/readall equals the same sequence on the in-memory content; timestamps are the specified bit fields. Tie: volumes '
+        'written by an independent writer over random legal geometries with fragmentation, long/short names, NT flags, deleted entries, labels, orphan runs: '
+        'tree read through nobodd == extracted Coq spec reader == what was written; models vs real classes; seek/read scripts; image unchanged.',
+   note=FAT_NOTE + 'Directory decoding is proved through the C11 round trip (records written by the model decode to the name) not against an arbitrary corrupted run; '
+        'struct, memoryview, datetime and the code page are CPython. Found and fixed: lfn_valid rejected VFAT-legal names (listing raised).',
+   design='§7 C03'),
+ 'C04': dict(
+   technique='Coq invariant proofs (byte-level FAT set/get frame; chain-level truncate/write/close/unlink well-formedness and frame over any history) + oracle by the extracted Coq structural check after every operation',
+   text='Theorems: stage T on bytes (a stored entry reads back, every other entry incl. the FAT12 nibble neighbour and FAT32 top bits untouched, all copies '
+        'identical); stage F on chains (truncate shrink/grow/zero, write, close, unlink keep every file well-formed: chain in range, linked, terminated, '
+        'duplicate-free, ceil(size/cs) long; other files and foreign entries untouched; ANY operation sequence on any family of files). Directory and '
+        'path-level operations are not modelled as image transformers: after EVERY operation of seeded histories (all ten operations, all FAT types, '
+        'empty/populated/fragmented volumes) the extracted Coq reader must report a clean complete structural check and the same tree as a plain in-memory '
+        'model, through the same instance, a fresh instance and the spec reader, with bytes outside the partition unchanged.',
+   note=FAT_NOTE + 'PARTIAL: history_refines is proved at FAT/chain level only; directory entries and path operations are oracle/correspondence. '
+        'Found and fixed: truncate shrink slice, growth from empty map, chain leak in unlink/rmdir/rename, mkdir not zeroing, rename onto itself, rename of directories, lost case flags.',
+   design='§7 C04'),
+ 'C06': dict(
+   technique='Coq proof over the AST-regenerated mutation skeleton (no store reachable from serving entry points) + regenerated read-only defaults + image hashes under a real server',
+   text='Theorems: with the serving configuration (DiskImage mapped ACCESS_READ by default, FatFileSystem atime off, file opened rb -- all three regenerated from '
+        'the source) NO execution of the entry points used while serving (open, readinto/readall, seek, close, resolution, listing; statements in any order, '
+        'any repetition, aborted anywhere) stores into the image; a WRQ is refused with ERROR. Tie: skeleton regenerated from fs.py/path.py on every run and '
+        'checked by vm_compute; in-process BootHandler and a real BootServer over UDP on images incl. dirty-flagged volumes and zero-length files owning a '
+        'cluster: SHA-256 before/after, reaper alive, WRQ refused.',
+   note=FAT_NOTE + 'The skeleton abstracts control flow (superset of executions) and resolves calls by method name; OS enforcement of the read-only mapping is runtime residue. '
+        'Found and fixed: close() released clusters in read mode (TypeError killing the reaper).',
+   design='§7 C06'),
+ 'C10': dict(
+   technique='Coq proofs about the allocator scan and all-or-nothing growth (in data area, no duplicates, complete; ENOSPC iff genuinely short) + fault enumeration over free-cluster counts',
+   text='Theorems: every cluster the scan yields is free and inside the data area; one scan never yields a cluster twice (FAT32 hint wrap included) and finds '
+        'every free cluster; growing truncate fails exactly when too few clusters are free, with ENOSPC and the state unchanged; a write that runs out leaves '
+        'the file well-formed holding a prefix. Tie: model vs real FatFile/FatTable on random sequences; fault enumeration: every allocating operation x every '
+        'free-cluster / free-root-slot count from 0 to need, FAT12/16/32, with/without FSInfo, FATs larger than the data area: outcome ok or ENOSPC only, '
+        'extracted structural check clean, bystanders intact, prefix / all-or-nothing, usable again after freeing.',
+   note=FAT_NOTE + 'Directory growth and root-slot exhaustion are oracle-level. Observation: cluster 2 is never allocated on FAT12/16; a full root directory needs one spare slot for the terminator. '
+        'Found and fixed: allocation beyond the data area, duplicate clusters from Fat32Table.free.',
+   design='§7 C10'),
+ 'C11': dict(
+   technique='Coq proofs over a model of _get_names/_get_unique_sfn/_prefix_entries incl. round trip through the independent spec decoder + differential check + on-disk oracle',
+   text='Theorems: valid names = the VFAT rule; invalid / over-long names give ValueError with nothing produced; the records written decode (by the independent '
+        'specification reader, through surrogate joining) to exactly the name; ordinals, terminator, 0xFFFF padding, checksum, <= 20 records; pure 8.3 names '
+        '(optionally lower base/extension) need no long records; alias bytes legal; alias differs from every existing alias and long name; numeric tail is the '
+        'least free one; adding an entry never changes what existing names resolve to. Tie: model vs real FatDirectory on thousands of names x pre-seeded '
+        'directories; on-disk oracle with the extracted reader and a raw decoder (listing, case variants, alias lookup, no shadowing, structural check).',
+   note=FAT_NOTE + 'Unicode upper-casing and re.IGNORECASE folding are CPython\'s (explicit model inputs, validated over all code points). '
+        'Found and fixed: unanchored tail patterns produced duplicate aliases; lfn_valid accepted a trailing newline.',
+   design='§7 C11'),
+ 'C12': dict(
+   technique='Coq proof of a build/parse round trip (induction over EBR chains and GPT entry arrays, generic struct lemmas) over an AST-regenerated model + extracted-generator differential check',
+   text='Ten theorems over an executable model of DiskImage.partitions / DiskPartitionsGPT / DiskPartitionsMBR for all well-formed layouts (any EBR-chain length, any GPT entry '
+        'count and size 128*2^k, any sector size 512k): parse(build layout) lists exactly the defined numbers with exact windows, types and labels, KeyError otherwise; protective '
+        'MBR defers to GPT; bad signature / revision / header size / CRC / boot signature give ValueError. Tie: struct tables, constants and arithmetic regenerated from '
+        'disk.py/mbr.py/gpt.py; images from the extracted build, every single-field header corruption, truncations, CRC-32 vs binascii.',
+   note='Trusted: Coq kernel (vm_compute on closed terms), gen_disk.py, extraction + driver, CPython struct/mmap/uuid. Detection of a corrupted CRC-covered field is _partial (assumes CRC separation). '
+        'Found and fixed: phantom partition from an empty first EBR slot; KeyError for a lone partition not in slot 1.',
+   design='§7 C12'),
+ 'C13': dict(
+   technique='Coq inductive-invariant proof (ghost accounting per program point + wait-for argument) over an executable interleaving model + deterministic-scheduler differential check on real threads',
+   text='Eight unbounded theorems over a small-step model of locks.py at primitive-lock granularity (any number of threads, any well-nested programs, blocking / non-blocking / timed): '
+        'mutual exclusion with shared readers, counter consistency, failed attempts are no-ops, quiescent implies free, no assertion/RuntimeError, deadlock freedom, decreasing progress measure. '
+        'Tie: digests and decision constants of every method regenerated from the source; real RWLock under a scheduler shim vs the extracted model on random programs and schedules, property evaluated on the runs.',
+   note='Trusted: Coq kernel, gen_locks.py, extraction + driver, the scheduling shim; threading.Lock and OS fairness are assumed (termination = no_deadlock + measure + fairness). '
+        'Found and fixed: deadlock of the downgrade path (model schedule replayed on the real class).',
+   design='§7 C13'),
+ 'C14': dict(
+   technique='Coq soundness proof of a lock/mutation skeleton check + vm_compute of the check on the skeleton regenerated from the AST + line-level runtime tracing',
+   text='Theorems: for every public function of fs.py/path.py and EVERY execution of its body (statements in any order, repeated, interrupted anywhere by return or exception, calls to '
+        'any depth) each store into the image happens while the thread holds the write side, and at the end the thread holds neither side; plus the generic soundness theorem of the check. '
+        'Tie: the skeleton (with-lock nesting, store sites, call sites) is regenerated from the source on every run (fail closed on bare acquire/release); runtime: RWLock wrapped by a recorder, '
+        'image diffed at every executed line over seeded histories incl. reads, listings, exhausted / closed / dropped generators, atime reads; 2-4 real threads on one volume vs serial result.',
+   note=FAT_NOTE + 'The skeleton is an over-approximation resolved by method name (trusted translator); serial equivalence under real pre-emption is observed only by the thread tier (PARTIAL).',
+   design='§7 C14'),
+ 'C15': dict(
+   technique='Coq proof of the dirty-bracket discipline over the regenerated skeleton + every intermediate image of the implementation checked by the extracted Coq structural reader',
+   text='Theorem (partial): every store made by an API operation lies inside a mark_dirty bracket (flag set before, restored after, also on exceptions) except the access-time update and the '
+        'stores of the flag itself. Oracle on EVERY intermediate image (image diffed at each executed line, C04 histories and C10 out-of-space cases): inconsistent => dirty flag set (FAT16/32); '
+        'flag restored and volume consistent at the end; every bystander file found with unchanged content at every crash point on all FAT types.',
+   note=FAT_NOTE + 'PARTIAL: that bracketed stores leave bystanders intact is oracle-level, not a theorem. Two known findings are recorded (known_findings.json): flag restored in the primary FAT copy first; '
+        'open empty file keeps its cluster until close by design. Torn stores within one source line are treated as atomic.',
+   design='§7 C15'),
+ 'C17': dict(
+   technique='Coq proof (list induction, relational tokenisation spec, digit-string round trips) over an executable model + translator-regenerated facts + end-to-end oracle on synthesised disk images',
+   text='Nineteen theorems over a model of prep.rewrite_cmdline (first line, str.split over the full CPython white-space set, root= filter, three prepended parameters), config.serial and '
+        'Board.__str__ with a reader specification of the [board:HEX] section: the command line equals an independent relational tokenisation for all texts/hosts/shares/partitions; serial '
+        'spellings incl. both prefixes; board text reads back to the same serial, path and partition. Tie: templates, constants, removal order regenerated from the AST; white-space set over all '
+        'code points; rewrite_cmdline on real volumes; oracle over nobodd.prep.main on MBR/GPT x FAT12/16/32 images (removed, copied, untouched files, other partitions, size, emitted board).',
+   note='Trusted: Coq kernel, gen_prep.py, extraction + driver, CPython text layer / configparser / argparse. The file-tree part is oracle-level (rests on C04). The rewrite is proved NOT idempotent (not required). '
+        'Found and fixed: nested directory removal order, missing sys import for "-".',
+   design='§7 C17'),
+ 'C18': dict(
+   technique='Coq proof (fuel induction with a link-free-path invariant) over an executable path-resolution model + differential check on materialised trees + kernel-level oracle',
+   text='Six theorems over a model of pathlib joining, CPython realpath (non-strict give-up on loops, strict mode), the kernel path walk and SimpleTFTPHandler.resolve_path + open + the error ladder, for all '
+        'trees, bases and names: whatever is served is a regular file reached through directories only, strictly below base, with its exact bytes; names resolving inside are served; anything resolving outside '
+        'is PermissionError => ERROR 2. Tie: AST-regenerated facts; random materialised trees with inside / outside / dangling / looping links and planted secrets, /proc/self/fd oracle, in-process do_RRQ, real UDP.',
+   note='Trusted: Coq kernel, translator, extraction + driver, the model\'s specification of Path.resolve() (compared with the real one on every run); no races between resolve and open. '
+        'Found and fixed: escape via symlink loop + outside link.',
+   design='§7 C18'),
+ 'C19': dict(
+   technique='Coq proof (fuel induction over an abstract short-reading reader) of copy_bytes exactness and termination + AST expression translation + end-to-end shell oracle with shrinking',
+   text='Theorems: for every content, position, range, reader (short reads allowed) and loop variant copy_bytes returns within |content|+2 iterations having written exactly content[start:min(stop,|content|)]; '
+        'the single-read fast path yields a non-empty prefix on a short-reading raw source; step != 1 rejected. Shell commands (cp/-r, mv, rm/-r/-f, rmdir, mkdir/-p, touch, cat over host, img:N/ and img:/ paths, '
+        'FAT12/16/32, two partitions, sizes around 64 KiB, ENOSPC) are checked end to end by an oracle: expected in-memory trees vs fresh read-back after every command, exit status, extracted Coq structural check (sampled).',
+   note='Proof level for byte copying; the shell half is oracle/correspondence only (PARTIAL). Assumes full reads unless at EOF for the fast path (true for buffered readers). '
+        'Found and fixed: divergence past end of source, two FatFileSystem instances per partition (mv lost the file), cp onto itself.',
+   design='§7 C19'),
+})
+
 NOT_YET = {}
 
 def main():
@@ -96,7 +222,7 @@ def main():
     m = {
         'version': 1,
         'setup_cmd': './setup.sh',
-        'hooks': {'guard': 'NOBODD_VERIF', 'enable': 'no source hooks: checks monkey-patch module globals from the harness (NOBODD_VERIF=1 is exported but unused by /repo)',
+        'hooks': {'guard': 'NOBODD_VERIF', 'enable': 'no source hooks were needed: checks monkey-patch module globals from the harness (NOBODD_VERIF=1 is exported but unused by /repo)',
                   'baseline_off_cmd': 'cd /repo && /venv/bin/python -m pytest -ra -q -p no:cacheprovider --timeout=900 --continue-on-collection-errors',
                   'source_commits': [], 'add_only': True},
         'engines': [{'name': 'coq+runner+harness', 'path': '/verif',
